@@ -274,7 +274,9 @@ def run(ctx) -> None:
     for name, fn in (("X1", template.rule_X1), ("X2", rule_X2), ("X3", rule_X3), ("X4", rule_X4), ("X5", rule_X5), ("X6", rule_X6), ("X7", rule_X7), ("X8", rule_X8)):
         ctx.rules_run.append(name)
         fn(ctx)
-    from .c03 import rule_P7
+    from .c03 import rule_P7, rule_P13
+    ctx.rules_run.append("P13")
+    rule_P13(ctx)    # a nested type is defined under the name its references derive
     ctx.rules_run.append("P7")
     rule_P7(ctx)     # a generated package module is never replaced by an empty __init__.py listed next to it: references into an ancestor package stay resolvable
     ctx.notes.append("NOT DECIDED: relative-import depth arithmetic, alias collisions, circular import behaviour")
